@@ -27,7 +27,8 @@ RULE = (
 )
 
 KINDS = ["grad1", "nested", "fwd_rev", "rev_fwd", "hvp", "jacobian", "nested3", "nested_jvp", "nested_twice", "two_calls",
-         "shared_tjp", "shared_hvp_twice", "shared_grad", "grad1_bwd", "nested_bwd", "shared_jvp", "shared_args", "shared_ckpt", "nested_worker"]
+         "shared_tjp", "shared_hvp_twice", "shared_grad", "grad1_bwd", "nested_bwd", "shared_jvp", "shared_args", "shared_ckpt", "nested_worker",
+         "holomorphic", "complex_mid", "const_graph"]
 
 # kinds whose result must equal that of another kind: the same arithmetic with the inner differentiation run in the calling thread
 TWIN = {"nested_worker": "nested"}
@@ -88,6 +89,28 @@ def shared_ops():
             s.yp(); s.leave()
             return y
 
+        from autograd.extend import defjvp as _defjvp, defvjp as _defvjp, primitive as _primitive
+        from autograd.misc.tracers import const_graph
+
+        @_primitive
+        def yp_forward(x):  # identity that yields whenever it is EVALUATED (also when a recorded graph is replayed)
+            s = getattr(_TLS, "s", None)
+            if s is not None:
+                s.yp()
+            return x * 1.0
+
+        _defvjp(yp_forward, lambda ans, x: lambda g: g)
+        _defjvp(yp_forward, lambda g, ans, x: g)
+
+        def model(x, k):
+            return anp.sum(anp.sin(yp_forward(2.0 * x)) * yp_forward(x)) * k + anp.sum(yp_forward(x * x))
+
+        cg = const_graph(model)
+        prev_s = getattr(_TLS, "s", None)
+        _TLS.s = None
+        cg(onp.ones(3), 1.0)  # the recording call happens here, once (no yields), before any thread replays the function
+        _TLS.s = prev_s
+        _SHARED.update(cg=cg, cg_ref=model)
         _SHARED.update(tjp=do.tensor_jacobian_product(f), hvp=autograd.hessian_vector_product(fs), grad=autograd.grad(fs),
                        vag=autograd.value_and_grad(fs), jac=autograd.jacobian(f), mjvp=autograd.make_jvp(fs),
                        gradk=autograd.grad(fk), egradk=autograd.elementwise_grad(fk), mjvpk=autograd.make_jvp(fk), ck=autograd.checkpoint(f))
@@ -273,6 +296,51 @@ def make_prog(kind, a):
             s.yp()
             val, r2 = ops["vag"](x0 + 0.1, c=a)
             return conv(onp.concatenate([r1, r2, [val]]))
+    elif kind == "holomorphic":
+        def prog(s):
+            # a holomorphic gradient of a complex function, with yield points inside the function and inside its backward pass
+            yp_ = ypass()
+            _TLS.s = s
+            cw = onp.array([1.0 + 0.5j, -0.3 + 2.0j, 0.7 - 1.0j]) * (1.0 + a)
+
+            def f(z):
+                s.enter(); s.yp()
+                y = anp.sum(yp_(anp.sin(z) * z) * cw)
+                s.yp(); s.leave()
+                return y
+            z0 = onp.array([0.3 + 0.2j, -0.5 + 1.0j, 0.8 - 0.4j]) * (1.0 + a)
+            r = autograd.holomorphic_grad(f)(z0)
+            s.yp()
+            return conv(r)
+    elif kind == "complex_mid":
+        def prog(s):
+            # real in, real out, complex in between: complex cotangents reach real operands (through broadcasting operations)
+            yp_ = ypass()
+            _TLS.s = s
+            cw = onp.array([[1.0 + 0.5j, -0.3 + 2.0j, 0.7 - 1.0j]]) * (1.0 + a)
+
+            def f(x):
+                s.enter(); s.yp()
+                u = yp_(x * cw)
+                s.yp()
+                y = anp.real(anp.sum(u * u * (a + 0.5j))) + anp.sum(anp.real(yp_(x + 1j * a) * cw))
+                s.yp(); s.leave()
+                return y
+            r = autograd.grad(f)(onp.array([0.3, -0.5, 0.8]) * (1.0 + a))
+            s.yp()
+            return conv(r)
+    elif kind == "const_graph":
+        def prog(s):
+            # one recorded-graph function (autograd.misc.const_graph), recorded beforehand, replayed by every thread on its own data
+            ops = shared_ops()
+            _TLS.s = s
+            x0 = onp.array([0.2, -0.4, 0.6]) * (1.0 + a)
+            r1 = ops["cg"](x0, a)
+            s.yp()
+            r2 = autograd.grad(lambda t: ops["cg"](t, 1.0 + a))(x0 + 0.1)
+            s.yp()
+            r3 = ops["cg"](x0 * 2.0, 1.0)
+            return conv(onp.concatenate([[r1], r2, [r3]]))
     elif kind == "fwd_rev":
         def prog(s):
             def f(x):
